@@ -83,8 +83,71 @@ def call_text(op, ta, tb):
     return ev
 
 
+OPCHAR = {"add": "+", "sub": "-", "mul": "*", "div": "/", "mod": "%", "idiv": "ḭ"}
+PYOP = {"add": lambda a, b: a + b, "sub": lambda a, b: a - b, "mul": lambda a, b: a * b,
+        "div": lambda a, b: a / b if b != 0 else Fraction(0), "mod": lambda a, b: a % b,
+        "idiv": lambda a, b: Fraction(math.floor(a / b)) if b != 0 else Fraction(0)}
+
+
+def event_from(op, a, b, r):
+    """an event for a result that some route produced for `a op b`"""
+    ev = {"op": op, "a": rat_json(a), "b": rat_json(b), "err": "", "rty": "", "r": rat_json(Fraction(0)),
+          "k": rat_json(Fraction(math.floor(a / b)) if b != 0 else Fraction(0))}
+    j = runner.num_json(r)
+    ev["rty"] = j["ty"]
+    if j["ty"] in ("int", "rational"):
+        ev["r"] = {"neg": j["neg"], "num": j["num"], "den": j["den"]}
+    else:
+        ev["shown"] = str(r)[:80]
+    return ev
+
+
+def observe_routes(case):
+    """the same arithmetic reached by other routes than one call: a FOLD over a list (every step is the binary
+    operation on the exact running value), a VECTORISED call (scalar with list, list with scalar: item by item),
+    and a PROGRAM whose operands are written as literals"""
+    import vyxal.elements as E
+    import vyxal.helpers as H
+    from vyxal.context import Context
+
+    kind = case[0]
+    ctx = Context()
+    calls = []
+    try:
+        if kind == "fold":
+            _, op, items = case
+            fn = getattr(E, OPS[op])
+            r = H.foldl(fn, [to_vy(x) for x in items], ctx=ctx) if op != "mul" else E.product([to_vy(x) for x in items], ctx)
+            acc = items[0]
+            for x in items[1:-1]:
+                acc = PYOP[op](acc, x)
+            calls.append(event_from(op, acc, items[-1], r))
+        elif kind == "vec":
+            _, op, scalar, items, scalar_left = case
+            fn = getattr(E, OPS[op])
+            lst = [to_vy(x) for x in items]
+            r = fn(to_vy(scalar), lst, ctx) if scalar_left else fn(lst, to_vy(scalar), ctx)
+            got = list(r)
+            if len(got) != len(items):
+                return {"calls": [{**event_from(op, scalar, items[0], 0), "err": "length"}]}
+            for x, g in zip(items, got):
+                calls.append(event_from(op, scalar, x, g) if scalar_left else event_from(op, x, scalar, g))
+        elif kind == "prog":
+            _, op, ta, tb = case
+            stack, _c, err = runner.exec_text(f"{ta} {tb}{OPCHAR[op]}")
+            a, b = Fraction(ta), Fraction(tb)
+            if err or len(stack) != 1:
+                return {"calls": [{**event_from(op, a, b, 0), "err": "program:" + (err or f"{len(stack)}-values")[:40]}]}
+            calls.append(event_from(op, a, b, stack[0]))
+    except Exception as e:  # noqa: BLE001
+        return {"calls": [{**event_from("add", Fraction(0), Fraction(1), 0), "err": type(e).__name__}]}
+    return {"calls": calls}
+
+
 def observe(case):
     kind = case[0]
+    if kind in ("fold", "vec", "prog"):
+        return observe_routes(case)
     if kind == "text":
         return {"calls": [call_text(case[1], case[2], case[3])]}
     if kind == "pair":
@@ -178,6 +241,29 @@ def main(tier):
                 for shift in (0, 1, 2, 3):      # shifts the deterministic choice of operand representation
                     cs.append(("pair", op, Fraction(q * b), Fraction(b) if shift < 2 else Fraction(b * (1 if shift == 2 else -1))))
                     cs.append(("pair", op, Fraction(q * b + shift), Fraction(b)))
+    # other routes to the same arithmetic: folds (a partial result of 0 included), vectorised calls with the scalar
+    # on either side, programs whose operands are literals (leading "0.", ".5", trailing point)
+    def frac():
+        return Fraction(rng.randint(-9, 9), rng.choice([1, 1, 2, 3, 4]))
+    for _ in range(400 if tier == "quick" else 6000):
+        items = [frac() for _ in range(rng.randint(2, 5))]
+        if rng.random() < 0.4:
+            items[rng.randrange(len(items) - 1)] = Fraction(0)
+        if rng.random() < 0.3:
+            items[1] = items[0]                      # a difference / quotient that passes through 0 or 1
+        cs.append(("fold", rng.choice(["sub", "mul", "add", "div"]), items))
+    for items in ([Fraction(1, 2), Fraction(0), Fraction(3, 4)], [Fraction(1, 2), Fraction(1, 2), Fraction(1, 3)], [Fraction(3), Fraction(3), Fraction(5)],
+                  [Fraction(0), Fraction(2), Fraction(4)]):
+        for op in ("sub", "mul", "div", "add"):
+            cs.append(("fold", op, items))
+    for _ in range(300 if tier == "quick" else 4000):
+        cs.append(("vec", rng.choice(["sub", "div", "mod", "idiv", "add", "mul"]), frac() or Fraction(1),
+                   [x for x in (frac() for _ in range(rng.randint(1, 4))) if x != 0] or [Fraction(2)], rng.random() < 0.5))
+    lits = ["0.5", "0.25", ".5", "3", "2.75", "0.125", "10", "7.", "1.5", "0.75", "12", "0.2"]
+    for ta in lits:
+        for tb in lits:
+            for op in OPS:
+                cs.append(("prog", op, ta, tb))
     # magnitudes far from 1 on either side: tiny and huge operands against ordinary ones
     tiny = [Fraction(n, 10 ** k) for k in (9, 10, 11, 12, 15, 20, 40) for n in (1, -1, 3, 7)] + \
            [Fraction(10 ** k + 1, 10 ** (2 * k)) for k in (6, 12)]
